@@ -146,130 +146,46 @@ pub fn number<'s>(input: &mut &'s str) -> (r: PResult<u64, SemverParseError<&'s 
     .parse_next(input)
 }
 }
-pub mod vg_version_core {
+pub struct SemverError { pub kind: SemverErrorKind }
+#[verifier::external_body]
+pub fn verif_semver_error() -> SemverError { unimplemented!() }
+pub open spec fn too_long(s: &str) -> bool { (s.spec_bytes().len() as usize) > MAX_LENGTH }
+pub open spec fn ref_parse(s: Seq<char>) -> Option<VSpec> {
+    match g_version(s) { Some((v, rest)) => if all_blank(rest) { Some(v) } else { None }, None => None }
+}
+pub mod vg_parse {
 use super::*;
 use super::twins::*;
-pub fn version_core<'s>(input: &mut &'s str) -> (r: PResult<(u64, u64, u64), SemverParseError<&'s str>>)
-    ensures match r { Ok(o) => version_core_acc(*old(input), o, *final(input)), Err(_) => version_core_rej(*old(input)) }
-{
-    broadcast use winnow_defs, grammar_defs;
-    proof { reveal_strlit("."); assert("."@ =~= s1('.')); lemma_prefix1('.'); }
-    (number, literal("."), number, literal("."), number)
-        .map(|arg: (u64, &'s str, u64, &'s str, u64)| -> (r: (u64, u64, u64)) ensures r == (arg.0, arg.2, arg.4) { let (major, _, minor, _, patch) = arg; (major, minor, patch) })
-        .context("version core")
-        .parse_next(input)
-}
-}
-pub mod vg_identifier {
-use super::*;
-use super::twins::*;
-pub fn identifier<'s>(input: &mut &'s str) -> (r: PResult<Identifier, SemverParseError<&'s str>>)
-    ensures match r { Ok(o) => identifier_acc(*old(input), o, *final(input)), Err(_) => identifier_rej(*old(input)) }
-{
-    broadcast use winnow_defs, grammar_defs;
-    proof { lemma_span_props(input@, |c: char| id_char(c)); }
-    Parser::map(
-        take_while(1.., |x: char| -> (b: bool) ensures b == id_char(x) { AsChar::is_alphanum(x) || x == '-' }),
-        |s: &str| -> (r: Identifier) requires s@.len() > 0, all_id_chars(s@) ensures ident_is(r, classify(s@)) {
-            broadcast use ax_parse_u64_digits, ax_parse_u64_nondigit;
-            str::parse::<u64>(s)
-                .map(|n: u64| -> (i: Identifier) ensures i == Identifier::Numeric(n) { Identifier::Numeric(n) })
-                .unwrap_or_else(|_err: std::num::ParseIntError| -> (i: Identifier) ensures i matches Identifier::AlphaNumeric(t) && t@ == s@ { Identifier::AlphaNumeric(s.to_string()) })
-        },
-    )
-    .context("identifier")
-    .parse_next(input)
-}
-}
-pub mod vg_build {
-use super::*;
-use super::twins::*;
-pub fn build<'s>(input: &mut &'s str) -> (r: PResult<Vec<Identifier>, SemverParseError<&'s str>>)
-    ensures match r { Ok(o) => build_acc(*old(input), o, *final(input)), Err(_) => build_rej(*old(input)) }
-{
-    broadcast use winnow_defs, grammar_defs;
-    proof { reveal_strlit("."); assert("."@ =~= s1('.')); lemma_prefix1('.'); reveal_strlit("+"); assert("+"@ =~= s1('+')); lemma_prefix1('+'); }
-    let ghost lit = Literal { t: "." };
-    proof {
-        assert(is_ident_parser::<SemverParseError<&'s str>, _>(identifier));
-        assert(is_dot_parser::<SemverParseError<&'s str>, Literal>(lit));
-        assert forall|i: &'s str, out: Seq<Identifier>, rest: &'s str| out.len() >= 1 && #[trigger] sep_all::<&'s str, Identifier, &'s str, SemverParseError<&'s str>, _, Literal>(identifier, lit, i, out, rest) implies (g_idents(i@) matches Some((x, r)) && idents_are(out, x) && r == rest@) by {
-            lemma_sep_all_idents::<SemverParseError<&'s str>, _, Literal>(identifier, lit, i, out, rest);
+impl Version {
+    pub fn parse_str<'s>(text: &'s str) -> (r: Result<Version, SemverError>)
+        ensures
+            match r {
+                Ok(v) => !too_long(text) && (ref_parse(text@) matches Some(s) && version_is(v, s)),
+                Err(_) => too_long(text) || ref_parse(text@) is None,
+            },
+    {
+        broadcast use winnow_defs, grammar_defs;
+        proof { match g_version(text@) { Some((_, rest)) => { lemma_all_blank(rest); }, None => {} } }
+        let mut input = text;
+
+        if input.len() > MAX_LENGTH {
+            return Err(verif_semver_error());
+        }
+
+        match terminated(version, (space0, eof)).parse_next(&mut input) {
+            Ok(arg) => Ok(arg),
+            Err(err) => Err(match err {
+                ErrMode::Backtrack(e) | ErrMode::Cut(e) => verif_semver_error(),
+                ErrMode::Incomplete(_) => verif_semver_error(),
+            }),
         }
     }
-    preceded(literal("+"), separated(1.., identifier, literal(".")))
-        .context("build version")
-        .parse_next(input)
 }
 }
-pub mod vg_pre_release {
-use super::*;
-use super::twins::*;
-pub fn pre_release<'s>(input: &mut &'s str) -> (r: PResult<Vec<Identifier>, SemverParseError<&'s str>>)
-    ensures match r { Ok(o) => pre_release_acc(*old(input), o, *final(input)), Err(_) => pre_release_rej(*old(input)) }
+pub open spec fn ex_a() -> Seq<char> { seq!['1', '.', '2', '.', '3', '.', '4'] }
+pub proof fn lemma_c05_examples()
+    ensures
+        ref_parse(ex_a()) is None,
 {
-    broadcast use winnow_defs, grammar_defs;
-    proof { reveal_strlit("."); assert("."@ =~= s1('.')); lemma_prefix1('.'); reveal_strlit("-"); assert("-"@ =~= s1('-')); lemma_prefix1('-'); }
-    let ghost lit = Literal { t: "." };
-    proof {
-        assert(is_ident_parser::<SemverParseError<&'s str>, _>(identifier));
-        assert(is_dot_parser::<SemverParseError<&'s str>, Literal>(lit));
-        assert forall|i: &'s str, out: Seq<Identifier>, rest: &'s str| out.len() >= 1 && #[trigger] sep_all::<&'s str, Identifier, &'s str, SemverParseError<&'s str>, _, Literal>(identifier, lit, i, out, rest) implies (g_idents(i@) matches Some((x, r)) && idents_are(out, x) && r == rest@) by {
-            lemma_sep_all_idents::<SemverParseError<&'s str>, _, Literal>(identifier, lit, i, out, rest);
-        }
-    }
-    preceded(opt(literal("-")), separated(1.., identifier, literal(".")))
-        .context("pre_release version")
-        .parse_next(input)
-}
-}
-pub mod vg_extras {
-use super::*;
-use super::twins::*;
-pub fn extras<'s>(input: &mut &'s str) -> (r: PResult<(Vec<Identifier>, Vec<Identifier>), SemverParseError<&'s str>>)
-    ensures match r { Ok(o) => extras_acc(*old(input), o, *final(input)), Err(_) => extras_rej(*old(input)) }
-{
-    broadcast use winnow_defs, grammar_defs;
-    
-    Parser::map(
-        opt(alt((
-            Parser::map((pre_release, build), |x: (Vec<Identifier>, Vec<Identifier>)| -> (r: Extras) ensures r == Extras::ReleaseAndBuild(x) { Extras::ReleaseAndBuild(x) }),
-            Parser::map(pre_release, |x: Vec<Identifier>| -> (r: Extras) ensures r == Extras::Release(x) { Extras::Release(x) }),
-            Parser::map(build, |x: Vec<Identifier>| -> (r: Extras) ensures r == Extras::Build(x) { Extras::Build(x) }),
-        ))),
-        |extras: Option<Extras>| -> (r: (Vec<Identifier>, Vec<Identifier>)) ensures extras_vals(extras, r) { match extras {
-            Some(extras) => extras.values(),
-            _ => Default::default(),
-        } },
-    )
-    .parse_next(input)
-}
-}
-pub mod vg_version {
-use super::*;
-use super::twins::*;
-pub fn version<'s>(input: &mut &'s str) -> (r: PResult<Version, SemverParseError<&'s str>>)
-    ensures match r { Ok(o) => version_acc(*old(input), o, *final(input)), Err(_) => version_rej(*old(input)) }
-{
-    broadcast use winnow_defs, grammar_defs;
-    proof { reveal_strlit("v"); assert("v"@ =~= s1('v')); lemma_prefix1('v'); reveal_strlit("V"); assert("V"@ =~= s1('V')); lemma_prefix1('V'); }
-    
-    (
-        opt(alt((literal("v"), literal("V")))),
-        space0,
-        version_core,
-        extras,
-    )
-        .map(
-            |arg: (Option<&'s str>, &'s str, (u64, u64, u64), (Vec<Identifier>, Vec<Identifier>))| -> (r: Version) ensures r.major == arg.2.0, r.minor == arg.2.1, r.patch == arg.2.2, r.pre_release == arg.3.0, r.build == arg.3.1 { let (_, _, (major, minor, patch), (pre_release, build)) = arg; Version {
-                major,
-                minor,
-                patch,
-                pre_release,
-                build,
-            } },
-        )
-        .context("version")
-        .parse_next(input)
-}
+    assert(ref_parse(ex_a()) is None) by (compute);
 }
